@@ -295,7 +295,7 @@ async def _(mpc):
     return sorted(d) == x and all(a != b for a, b in zip(d, x))
 
 
-@open_case('C33', 'C33-empty-and-mixed-lists', 'shuffle / sample of empty and of mixed public/secret lists', expected=[[], [], 2])
+@case('C33', 'shuffle / sample of empty and of mixed public/secret lists', 'b0dbb64', expected=[[], [], 2])
 async def _(mpc):
     import mpyc.random as mr
     secint = mpc.SecInt(16)
@@ -406,7 +406,7 @@ async def _(mpc):
     return [list((await mpc.output(p)).shape) for p in parts]
 
 
-@open_case('C27', 'C27-hc-cl-constructor-check', "HCDivisorCL(value) with the default check=True", expected=True)
+@case('C27', 'HCDivisorCL(value) with the default check=True', 'b89c4b7', expected=True)
 async def _(mpc):
     from mpyc import fingroups as fg
     H = fg.HyperellipticCurve('kummer1271')
@@ -427,11 +427,16 @@ async def _(mpc):
     return [order_of(Q.generator, 100) if Q.order == 15 else -1, order_of(C.generator, 100) if C.order == 21 else -1]
 
 
-@open_case('C27', 'C27-schnorr-decode-range', 'SchnorrGroup.decode(*encode(m)) for m >= 1024', expected=5000)
+@case('C27', 'SchnorrGroup.decode(*encode(m)): m itself, or ValueError beyond the search bound (never another message)', 'df01afd',
+      expected=[1000, 'ValueError'])
 async def _(mpc):
     from mpyc import fingroups as fg
     G = fg.SchnorrGroup(l=64, n=32)
-    return int(G.decode(*G.encode(5000)))
+    try:
+        big = int(G.decode(*G.encode(5000)))
+    except ValueError:
+        big = 'ValueError'
+    return [int(G.decode(*G.encode(1000))), big if big in (5000, 'ValueError') else big]
 
 
 @open_case('C28', 'C28-kummer-identity-operand', "SecGrp(kummer1271): identity operand of @, secret base with an even secret exponent",
@@ -446,7 +451,7 @@ async def _(mpc):
     return [a == g, b == (g ^ 2)]
 
 
-@open_case('C28', 'C28-repeat-public-field-exponent', 'secgrp.repeat(secret a, public GF(q) exponent)', expected=True)
+@case('C28', 'secgrp.repeat(secret a, public GF(q) exponent)', '433272e', expected=True)
 async def _(mpc):
     from mpyc import fingroups as fg, finfields
     group = fg.QuadraticResidues(l=8)
